@@ -184,7 +184,10 @@ func bulkSweep(r *mon.Run, out *childOut) {
 	for run := 0; run < r.Pick(24, 240); run++ {
 		rng := r.Rand(fmt.Sprintf("bulksweep|%d", run))
 		t := nbtns.NewNetBIOSNameServer(run%2 == 0)
-		n := []int{40, 70, 130, 300, 1000}[run%5]
+		n := []int{40, 70, 130, 300, 1000, 65536, 250000}[run%7]
+		if n > 1000 && run >= 14 {
+			n = 20000 // the very large tables twice per run only
+		}
 		released := []int{0, 10, 63, 64, 65, 200}[run%6]
 		for i := 0; i < released; i++ {
 			nm := fmt.Sprintf("REL%04d", i)
@@ -291,5 +294,83 @@ func suffixNames(r *mon.Run, out *childOut) {
 			st[ni] = ns
 		}
 		out.res.Nontrivial = append(out.res.Nontrivial, fmt.Sprintf("suffix|%d", run))
+	}
+}
+
+// manyCalls: the same operation repeated hundreds of times on one table (counters inside the table
+// pass 255 and 256): a refresh refreshes, and nothing else happens to the table — a name whose
+// lease has lapsed and that nobody swept is still there after any number of refreshes of others.
+func manyCalls(r *mon.Run, out *childOut) {
+	for run := 0; run < r.Pick(2, 10); run++ {
+		t := nbtns.NewNetBIOSNameServer(run%2 == 0)
+		t.RegisterName("MC-LIVE", nbtns.Unique, bigAddr(1), time.Hour)
+		t.RegisterName("MC-GROUP", nbtns.Group, bigAddr(2), time.Hour)
+		t.RegisterName("MC-LAPSED", nbtns.Unique, bigAddr(3), -time.Hour)
+		t.RegisterName("MC-LAPSED-G", nbtns.Group, bigAddr(4), -time.Hour)
+		for i := 1; i <= 1100; i++ {
+			var err error
+			switch (i + run) % 3 {
+			case 0:
+				err = t.RefreshName("MC-LIVE", bigAddr(1))
+			case 1:
+				err = t.RefreshName("MC-GROUP", bigAddr(2))
+			default:
+				// a refresh of the lapsed, unswept name by its owner re-arms it from now (as any
+				// refresh does); from then on it is live
+				if i > 700 {
+					err = t.RefreshName("MC-LAPSED", bigAddr(3))
+				} else {
+					err = t.RefreshName("MC-LIVE", bigAddr(1))
+				}
+			}
+			out.res.Evals++
+			snap := t.VerifSnapshot()
+			missing := ""
+			for _, n := range []string{"MC-LIVE", "MC-GROUP", "MC-LAPSED", "MC-LAPSED-G"} {
+				if _, ok := snap[n]; !ok {
+					missing = n
+				}
+			}
+			if err != nil || missing != "" {
+				out.violation("W3:many-calls:refresh", fmt.Sprintf("refresh #%d on one table: returned %v; the table no longer holds %q although no sweep and no release was requested", i, err, missing), map[string]any{"call_number": i}, 1)
+				return
+			}
+		}
+		if _, _, err := t.QueryName("MC-LAPSED"); err != nil {
+			out.violation("W3:many-calls:refreshed-name-not-found", fmt.Sprintf("a name refreshed by its owner (no error) is not found by QueryName: %v", err), nil, 1)
+		}
+		out.res.Nontrivial = append(out.res.Nontrivial, fmt.Sprintf("many-calls|%d", run))
+	}
+}
+
+// fullTables: tables of exactly 65535, 65536 and 65537 names; operations on names that are already
+// there (a group join, a repeated registration, a conflicting one, a query, a release) behave as on
+// a small table.
+func fullTables(r *mon.Run, out *childOut) {
+	for _, n := range []int{65535, 65536, 65537} {
+		t := nbtns.NewNetBIOSNameServer(false)
+		for i := 0; i < n-2; i++ {
+			t.RegisterName(fmt.Sprintf("FT%06d", i), nbtns.Unique, bigAddr(i%250), time.Hour)
+		}
+		t.RegisterName("FT-GROUP", nbtns.Group, bigAddr(1), time.Hour)
+		t.RegisterName("FT-UNIQ", nbtns.Unique, bigAddr(2), time.Hour)
+		out.res.Evals += 5
+		cs := map[string]any{"names_in_table": n}
+		if err := t.RegisterName("FT-GROUP", nbtns.Group, bigAddr(5), time.Hour); err != nil {
+			out.violation("W3:full-table:group-join", fmt.Sprintf("a table of %d names: joining an existing group is refused: %v", n, err), cs, 1)
+		}
+		if ips, _, err := t.QueryName("FT-GROUP"); err != nil || len(ips) != 2 {
+			out.violation("W3:full-table:group-members", fmt.Sprintf("a table of %d names: the group joined by a second address has %d members (err %v)", n, len(ips), err), cs, 1)
+		}
+		if err := t.RegisterName("FT-UNIQ", nbtns.Unique, bigAddr(9), time.Hour); err == nil {
+			out.violation("W3:full-table:conflict", fmt.Sprintf("a table of %d names: a unique name held by another address was registered again without a conflict", n), cs, 1)
+		}
+		if err := t.ReleaseName("FT000007", bigAddr(7)); err != nil {
+			out.violation("W3:full-table:release", fmt.Sprintf("a table of %d names: the owner cannot release its name: %v", n, err), cs, 1)
+		}
+		if err := t.RegisterName("FT-NEW", nbtns.Unique, bigAddr(3), time.Hour); err != nil {
+			out.res.Counters["full_table_new_name_refused"]++
+		}
+		out.res.Nontrivial = append(out.res.Nontrivial, fmt.Sprintf("full-table|%d", n))
 	}
 }
